@@ -1,4 +1,4 @@
-import H2V.Lemmas.ConnWakePReach
+import H2V.Lemmas.ConnWakePGoAway
 /-
   C07 — when a connection ends, every outstanding handle resolves: nothing hangs.
   Property theorems only; lemmas and definitions in `H2V/Lemmas/ConnWakeP*.lean` (see ConnWakePNOTES.md).
@@ -18,7 +18,7 @@ import H2V.Lemmas.ConnWakePReach
     `Step none s s'`     the frame relation every non-`poll_*` operation satisfies (C06)
 -/
 namespace H2V.Props.C07
-open H2V H2V.Model H2V.Model.Conn H2V.Lemmas.ConnWakeP
+open H2V H2V.Model H2V.Model.Conn H2V.Lemmas.ConnWakeP H2V.Lemmas.Comp
 
 /-- **EOF / dropped connection.**  After `Inner::recv_eof` — run when the transport reports EOF and by
     `Drop for Connection` however the connection ended — the connection error is set, and EVERY stream
@@ -38,6 +38,23 @@ theorem handle_error_resolves_every_linked_stream (s : Streams) (h : Good s) (er
     (s.handleError err).1.actions.connError = some err ∧
     ∀ e ∈ s.store.ids, ∀ a, s.store.get? e.2 = some a → EndedAt s (s.handleError err).1 e.2 a :=
   handleError_all s h.ids h.bounded err
+
+/-- **GOAWAY received.**  After `Inner::recv_go_away(last_stream_id)` (accepted: `Ok`) `conn_error` is the remote
+    GOAWAY — so no new request is accepted (`send_request_refused_after_end`) — and every locally
+    initiated stream ABOVE `last_stream_id` that the id map knew is released or closed with all parked
+    wakers woken (it will never be processed by the peer), its receive queue / handles / END_STREAM flag
+    untouched.  (Streams at or below `last_stream_id` go on; they are resolved by their own completion
+    or by the later end of the connection.) -/
+theorem goaway_received_resolves_streams_above_last_id (s s' : Streams) (h : Good s) (last : Nat) (r : Reason)
+    (d : Bytes) (hok : s.recvGoAwayFrame last r d = (s', .ok ())) :
+    s'.actions.connError = some (PErr.remoteGoAway d r) ∧
+    ∀ e ∈ s.store.ids, e.1 > last → s.counts.isLocalInit e.1 = true →
+      ∀ a, s.store.get? e.2 = some a → EndedAt s s' e.2 a :=
+  recvGoAwayFrame_all s s' h last r d hok
+
+example : (exOpen.recvGoAwayFrame 0 0 []).2 = .ok () ∧ exOpen.counts.isLocalInit 1 = true ∧
+    (exOpen.recvGoAwayFrame 0 0 []).1.wakes = ["s0", "p0"] := by
+  refine ⟨by decide, by decide, by decide⟩
 
 /-- non-vacuity: a state with a linked open stream, a parked response future `p0` and a parked
     capacity waiter `s0`; `recv_eof` wakes both and closes the stream -/
@@ -114,14 +131,57 @@ theorem closed_is_forever (op : Op) (s : Streams) (hb : KeysBounded s.store) (k 
   · exact Or.inl h
   · exact Or.inr ⟨b, hb', hab.closed hc⟩
 
-/-- the store invariant used above holds in the initial state of a client connection and is kept by
-    every non-`poll_*` operation -/
-theorem store_invariant_kept (op : Op) (s : Streams) (h : Good s) : Good (op.apply s) := op.good h
+/-- **The store invariant is not a restriction**: it holds in the initial state of both roles and is kept
+    by every operation (35 non-`poll_*` operations and 8 `poll_*`/parking operations, any arguments),
+    hence in every reachable state; so the two theorems at the top apply to every reachable state. -/
+theorem store_invariant_reachable (s : Streams) (h : Reachable s) : Good s := reachable_good h
+
+theorem recv_eof_resolves_every_linked_stream_reachable (s : Streams) (h : Reachable s) (clearPendingAccept : Bool) :
+    (s.recvEof clearPendingAccept).actions.connError.isSome = true ∧
+    ∀ e ∈ s.store.ids, ∀ a, s.store.get? e.2 = some a → EndedAt s (s.recvEof clearPendingAccept) e.2 a :=
+  recv_eof_resolves_every_linked_stream s (reachable_good h) clearPendingAccept
+
+/-- non-vacuity: the client state after one `send_request` is reachable and has a linked stream -/
+example : Reachable W1.w1 ∧ W1.w1.store.ids = [(1, 0)] :=
+  ⟨Reachable.op (.sendRequest false [] true none) (.client {}), by decide⟩
+
+/-- **The connection future completes.**  In state `Closed` `Connection::poll` is `Ready` (with the error
+    `take_error` computes) on every poll; in state `Closing` it is `Ready` one step later as soon as the
+    transport lets `shutdown` (final flush + `poll_shutdown`) finish, and until then the task is parked on
+    the transport's write waker. -/
+theorem connection_future_completes (n : Nat) (c : Conn) (r : Reason) (i : Initiator) :
+    (c.state = .closed r i → Conn.protoPoll (n + 1) c = ((c.takeError r i).1, .ready (c.takeError r i).2)) ∧
+    (c.state = .closing r i → ∀ w io, shutdownW c.codec.w c.codec.io c.cx = (w, io, .ready) →
+      ∃ c', Conn.protoPoll (n + 2) c =
+        (c', .ready (({ c with codec := { c.codec with w := w, io := io }, state := .closed r i } : Conn).takeError r i).2)) ∧
+    (c.state = .closing r i → ∀ c', Conn.protoPoll (n + 2) c = (c', .pending) → c'.codec.io.writeWaker = some c.cx) :=
+  ⟨protoPoll_closed n c r i, fun h w io hs => protoPoll_closing n c r i h w io hs,
+   fun h c' hp => protoPoll_closing_pending n c c' r i h hp⟩
+
+/-- **Dropping the connection resolves everything.**  After `Drop for Connection` (`recv_eof(true)`) and the
+    drop of the `SendRequest` handles — in whatever state the connection was: mid-exchange, after an
+    error, after GOAWAY, never polled — every stream the id map knew is released or `Resolved` and every
+    waker parked on it was woken; and the ping handle: the pong waiter is woken and every later
+    `poll_pong` is `Ready(Err(BrokenPipe))`. -/
+theorem drop_connection_resolves_everything (c : Conn) (sr : Option SendRequest) (clones : List SendRequest)
+    (hg : Good c.streams) :
+    (∀ e ∈ c.streams.store.ids, ∀ a, c.streams.store.get? e.2 = some a →
+      (dropConnKind c sr clones).streams.store.get? e.2 = none ∨
+      ∃ a', (dropConnKind c sr clones).streams.store.get? e.2 = some a' ∧ Resolved a' ∧
+        ∀ t, (a.sendTask = some t ∨ a.openTask = some t ∨ a.recvTask = some t ∨ a.pushTask = some t) →
+          t ∈ newWakes c.streams (dropConnKind c sr clones).streams) ∧
+    (∀ u, c.pingPong.userPings = some u → ∀ tag,
+      (∀ t, u.pongTask = some t → t ∈ newWakes c.streams c.dropUserPingsRx.streams) ∧
+      (c.dropUserPingsRx.userPollPong tag).2 = some false) :=
+  ⟨dropConnKind_resolves c sr clones hg, fun u hu tag => dropUserPingsRx_resolves c u hu tag⟩
+
+example : Good (Conn.init {}).streams := init_good {}
 
 end H2V.Props.C07
 
 #print axioms H2V.Props.C07.recv_eof_resolves_every_linked_stream
 #print axioms H2V.Props.C07.handle_error_resolves_every_linked_stream
+#print axioms H2V.Props.C07.goaway_received_resolves_streams_above_last_id
 #print axioms H2V.Props.C07.poll_capacity_ready_when_closed
 #print axioms H2V.Props.C07.recv_polls_ready_when_closed
 #print axioms H2V.Props.C07.poll_reset_ready_when_closed_partial
@@ -129,4 +189,7 @@ end H2V.Props.C07
 #print axioms H2V.Props.C07.send_request_refused_after_end
 #print axioms H2V.Props.C07.complete_message_still_delivered
 #print axioms H2V.Props.C07.closed_is_forever
-#print axioms H2V.Props.C07.store_invariant_kept
+#print axioms H2V.Props.C07.store_invariant_reachable
+#print axioms H2V.Props.C07.recv_eof_resolves_every_linked_stream_reachable
+#print axioms H2V.Props.C07.connection_future_completes
+#print axioms H2V.Props.C07.drop_connection_resolves_everything
